@@ -342,6 +342,22 @@ func untaggedPointers(c *run.Ctx) {
 			}
 			host := map[string]interface{}{"items": items}
 			idx := r.Intn(n)
+			// the same presence pattern as a map of structs
+			byName := map[string]c16Item{}
+			for k, it := range items {
+				byName[fmt.Sprint("k", k)] = it
+			}
+			mhost := map[string]interface{}{"items": byName}
+			mplus := fmt.Sprintf("items[\"k%d\"].score + 1", idx)
+			if v, err := yae.Eval(mplus, mhost); err == nil {
+				if !all {
+					c.Violation("absent-read-as-value", fmt.Sprintf("%q over a map of items with score present=%v evaluates to %s although some score is absent", mplus, pres, v), nil)
+				} else if v.String() != fmt.Sprint(10+idx+1) {
+					c.Violation("optional-host-data", fmt.Sprintf("%q over a map of items = %s", mplus, v), nil)
+				}
+			} else if all {
+				c.Violation("optional-host-data", fmt.Sprintf("%q over a map of items (all present) is refused: %v", mplus, err), nil)
+			}
 			c.Count("optional_programs", 1)
 			plus := fmt.Sprintf("items[%d].score + 1", idx)
 			viaGet := fmt.Sprintf("get(items[%d].score, 0 - 1)", idx)
